@@ -531,16 +531,12 @@ func (b *BaseStore) Load(ctx context.Context, amount int) error {
 	progress := make(chan ifacelog.IPFSLogEntry)
 	defer close(progress)
 	go func() {
-		for {
-			var entry ifacelog.IPFSLogEntry
-			select {
-			case <-ctx.Done():
-				return
-			case entry = <-progress:
-				if entry == nil {
-					// should not happen
-					return
-				}
+		// drain the channel until it is closed (at the end of Load): the fetcher
+		// sends on it without watching the context, so returning early on
+		// cancellation would leave it blocked on its next send for ever
+		for entry := range progress {
+			if entry == nil {
+				continue
 			}
 
 			b.recalculateReplicationStatus(entry.GetClock().GetTime())
